@@ -11,7 +11,7 @@ from harness import c02 as P
 import vlib
 
 LEVEL_TEXT = ('Lean 4 theorems about the model of propagate_fft, for all fields, samplings, oversampling factors, shapes and scratch '
-              'buffers: at C/R and isotropic dx·du, every sample of Wavefront.field of propagate_fft equals the sample of Wavefront.field of '
+              'buffers: at C/R and isotropic dx·du (or per-axis sampling whose axes lead to the same wavelength, e.g. non-square grids 20x40), every sample of Wavefront.field of propagate_fft equals the sample of Wavefront.field of '
               'the propagate_dft model (C02, proved against the Fraunhofer sum) at the reported wavelength, for every accepted output shape, '
               'with or without scratch (centred FFT = unitary dft2 with alpha = 1/S for both parities by the NumPy contracts; reported '
               'wavelength makes alpha = 1/S; dft2 of the padded grid = sum of per-field dft2 with offsets); the result with a sufficient '
@@ -22,8 +22,8 @@ LEVEL_TEXT = ('Lean 4 theorems about the model of propagate_fft, for all fields,
               'wavelengths, both shape branches and guards, the scratch guard, the metadata hand-over, scratch_shape\'s call, the pad index block.')
 LEVEL_NOTE = ('Partial: np.fft.fft2/fftshift/ifftshift and np.round/np.min/np.max enter through their documented contracts (not verified; the '
               'monotonicity of the rounding is a hypothesis of scratch_shape_monotone); oversample is an integer in the model and theorems — float '
-              'oversample is exercised by the oracle only (known finding KF-C09-float-oversample-explicit-shape); anisotropic dx·du is excluded by '
-              'hypothesis (KF-C09-fft-anisotropic-wavelength). Trusted: Lean kernel, py2lean subset semantics, generator coverage.')
+              'oversample is exercised by the oracle only (known finding KF-C09-float-oversample-explicit-shape); anisotropic dx·du whose per-axis wavelengths DIFFER is excluded by '
+              'hypothesis (KF-C09-fft-anisotropic-wavelength; consistent per-axis grids are covered). Trusted: Lean kernel, py2lean subset semantics, generator coverage.')
 TECHNIQUE = 'Lean 4 proof (finite-sum reindexing, omega) over hand model with differential correspondence at Float'
 GEN = ['Extent', 'FieldIdx', 'FftScratch', 'PropagateMeta', 'Util', 'Window']
 OPS = ['C02', 'C09']
@@ -37,7 +37,7 @@ RULE = ('cases: pupils 1..6 x 1..6 (even/odd/non-square, off-centre, segmented) 
 TRUSTED = ['np.fft.fft2(norm="ortho") = unitary DFT with origin at index 0; np.fft.fftshift/ifftshift = rotations by +-floor(n/2); '
            'np.round = round-half-even; lentil.field.insert as modelled by insertArr (C06)']
 UNPROVEN = ['float (non-integer) oversample: outside the model; explicit shapes then end in TypeError (known finding)',
-            'anisotropic dx*du (known finding): a single reported wavelength cannot describe two per-axis grids']
+            'anisotropic dx*du with different per-axis wavelengths (known finding): a single reported wavelength cannot describe both grids']
 ASSUMPTIONS = ['pupil (wavefront.shape) no larger than the FFT grid; isotropic dx*du for the FFT = DFT clause; integer oversample >= 1 in model and '
                'theorems (float oversample: oracle only, shape=None works, explicit shapes are an open known finding)']
 
@@ -68,6 +68,9 @@ def _case(rng, tier, k, out, scale=1.0, near=None, smax=None, kmax=6, float_os=F
             S2 = int(rng.integers(max(m, nn, 2), smax + 1))
             if S2 == S: S2 = S + 1
             du[1] = WL * Z * os_ / (dx[1] * S2)
+            if rng.integers(0, 2):
+                # different grid sizes per axis, 1/alpha integral on both: one wavelength describes both axes, FFT must equal DFT
+                du[0] = WL * Z * os_ / (dx[0] * S); cls = 'aniso-consistent'
         if near == 'axis':
             cls = 'aniso'; S2 = S
             du[1] = du[0] * dx[0] / dx[1] * (1 + float(rng.choice([-1, 1]) * 10 ** rng.uniform(-5, -2.5)))
@@ -86,7 +89,7 @@ def _case(rng, tier, k, out, scale=1.0, near=None, smax=None, kmax=6, float_os=F
                        'pad': [int(rng.integers(0, 4)), int(rng.integers(0, 4))], 'seed': int(rng.integers(0, 2 ** 31))}
             if scratch['size'] == 'larger' and scratch['pad'] == [0, 0]: scratch['pad'] = [1, 2]
             if scratch['size'] == 'small': scratch['pad'] = [-1, 0] if rng.integers(0, 2) else [0, -1]
-        if cls == 'aniso' and near is None and rng.integers(0, 10) < 7:
+        if cls.startswith('aniso') and near is None and rng.integers(0, 10) < 7:
             # non-square grids (wider than tall and taller than wide) with a dirty / re-used buffer, exact or larger
             scratch = {'size': 'exact' if rng.integers(0, 2) else 'larger', 'content': 'dirty' if rng.integers(0, 2) else 'prev',
                        'pad': [0, 0], 'seed': int(rng.integers(0, 2 ** 31))}
@@ -319,7 +322,9 @@ def oracle(c, io):
     d = float(np.max(np.abs(got - ref)))
     if d > tol:
         k = np.unravel_index(np.argmax(np.abs(got - ref)), got.shape)
-        pre = 'anisotropic dx*du: ' if inp['pixelscale'][0] * c['du'][0] != inp['pixelscale'][1] * c['du'][1] else ''
+        # known-finding class: the two axes lead to DIFFERENT wavelengths (a single reported wavelength cannot fit both grids);
+        # anisotropic sampling whose per-axis wavelengths coincide (e.g. integral 1/alpha on both axes) must agree with the DFT
+        pre = 'anisotropic dx*du: ' if abs(lam_axis[0] - lam_axis[1]) > 1e-9 * max(lam_axis) else ''
         return (f"{pre}propagate_fft {ANISO_MSG} {io['wavelength']:.6g}: sample {tuple(int(x) for x in k)} = {got[k]:.6g} vs {ref[k]:.6g} "
                 f"(max error {d:.3e}, grid {io['grid']})")
     return None
@@ -329,8 +334,11 @@ def matches_finding(kf, c, msg):
         return bool(isinstance(msg, str) and msg.startswith('float oversample:') and c.get('float_os') and c.get('shape') is not None)
     if kf.get('id') != 'KF-C09-fft-anisotropic-wavelength': return False
     if not isinstance(msg, str) or ANISO_MSG not in msg or not msg.startswith('anisotropic dx*du'): return False
-    # input class of the finding: the two axes ask for different grids / different alpha
-    return c['dx'][0] * c['du'][0] != c['dx'][1] * c['du'][1]
+    # input class of the finding: the two axes lead to different wavelengths S_i*dx_i*du_i/(z*os)
+    WL, Z = P._wz(c)
+    S = [_even_round(WL * Z * c['os'] / (c['dx'][a] * c['du'][a])) for a in (0, 1)]
+    lam = [S[a] * c['dx'][a] * c['du'][a] / (Z * c['os']) for a in (0, 1)]
+    return abs(lam[0] - lam[1]) > 1e-9 * max(lam)
 
 def replay_finding(kf):
     if kf.get('id') not in ('KF-C09-fft-anisotropic-wavelength', 'KF-C09-float-oversample-explicit-shape'): return False
@@ -346,7 +354,7 @@ def signature(c):
             f"scratch={None if s is None else (s['size'], s['content'], s['pad'])} tilt={c['tilt'] is not None}")
 
 def nontrivial(c):
-    return bool(c['scratch'] is not None or c['shape'] is not None or c['tilt'] is not None or c['class'] == 'aniso'
+    return bool(c['scratch'] is not None or c['shape'] is not None or c['tilt'] is not None or c['class'].startswith('aniso')
                 or _even_round(P._wz(c)[0] * P._wz(c)[1] * c['os'] / (c['dx'][0] * c['du'][0])) % 2 == 1)
 
 def tags(c):
